@@ -1373,7 +1373,13 @@ func c06Gen(r *verifh.Rng) []verifh.Section {
 				}
 				ops = append(ops, fmt.Sprintf("ctake p%d n=%d%s%s%s", pkey(), r.Range(2, 6), c06J(r), c06DBFault(r), lc)+ivs())
 			case x < 45:
-				ops = append(ops, fmt.Sprintf("cqindex x%d n=%d%s", pkey(), r.Range(2, 6), c06J(r))+ivs())
+				// (through ONE instance: with several barrier classes each class leads once and the two entries of the
+				// index path may come from different leaders — last writer wins per entry —, which the model does not enumerate)
+				one := ""
+				if ni > 1 {
+					one = fmt.Sprintf(" i=%d", r.Intn(ni))
+				}
+				ops = append(ops, fmt.Sprintf("cqindex x%d n=%d%s", pkey(), r.Range(2, 6), c06J(r))+one)
 			case x < 49:
 				// concurrent readers of several keys, chained second reads, one P / many Ps
 				pool := r.Range(1, nk+1)
